@@ -191,7 +191,7 @@ def run_pad(ck, n_cases, alias):
             "true" if alias else "false", c["n"], r["nocc"], r["nocc"] - r["nfo"], CC.coq_nats(r["A"]),
             CC.coq_znest(r["d1_0"]), CC.coq_znest(r["d2_0"])))
     try:
-        model = ck.coq_eval("pad", PREAMBLE, exprs, shard=10)
+        model = ck.coq_eval("pad", PREAMBLE, exprs, shard=10, jobs=3)
     except Exception as e:
         ck.violation("C13/correspondence/pad_restricted/model-evaluation", "the Coq model could not be evaluated: %s" % str(e)[-600:],
                      {"kind": "model-eval"}, found_input=False)
@@ -526,7 +526,7 @@ def run_vqe(ck, n_cases):
                 coq_qnest(dense[part][0]), coq_qnest(dense[part][1])))
             meta.append((c, part, impl, e))
     try:
-        model = ck.coq_eval("rdm", PREAMBLE, exprs, shard=6)
+        model = ck.coq_eval("rdm", PREAMBLE, exprs, shard=6, jobs=3)
     except Exception as e:
         ck.violation("C13/correspondence/get_rdm/model-evaluation", "the Coq model could not be evaluated: %s" % str(e)[-600:],
                      {"kind": "model-eval"}, found_input=False)
@@ -879,7 +879,7 @@ def run_pyscf_get_rdm(ck):
         mols += [("H4+-quartet", chain(4, 1.0), 1, 3, None, False), ("H3-doublet", chain(3, 0.95), 0, 1, None, False),
                  ("H4-triplet-frozen[0]", chain(4, 0.85), 0, 2, [0], False), ("H4-singlet-frozen[3]", chain(4, 0.9), 0, 0, [3], False),
                  ("H4-UHF-triplet-frozen[[3],[3]]", chain(4, 0.9), 0, 2, [[3], [3]], True), ("H4+-UHF-doublet-frozen[[3],[3]]", chain(4, 0.95), 1, 1, [[3], [3]], True),
-                 ("H3-UHF-doublet-frozen[[0],[]]", chain(3, 0.95), 0, 1, [[0], []], True), ("H2+-UHF", chain(2, 1.0), 1, 1, None, True)]
+                 ("H3-UHF-doublet-frozen[[0],[]]", chain(3, 0.95), 0, 1, [[0], []], True)]
     maps = [("scbk", True), ("jw", False)] if ck.tier == "quick" else \
            [("scbk", True), ("jw", False), ("jw", True), ("bk", False), ("bk", True), ("jkmn", False), ("jkmn", True)]
     for name, xyz, q, spin, fr, uhf in mols:
